@@ -224,6 +224,7 @@ func main() {
 	res.Counters["expected-panics"] = st.ExpPanics
 	res.Counters["observers-registered-after-serving-in-another-world"] = st.ObserverReuse
 	res.Counters["late-type-round-trips"] = st.LateRoundTrips
+	res.Counters["observers-registered-inside-callbacks"] = st.RegInCallback
 	res.Counters["stats-comparisons-around-rejected-calls"] = st.RejectedStatsCmp
 	res.Counters["standing-filters-with-prior-batch-call"] = st.FilterSpareBatch
 	res.Counters["relation-lists-reused-by-another-world"] = st.RelListsShared
